@@ -1,4 +1,5 @@
 import Syzgy.Lemmas.Lock
+import Syzgy.Lemmas.Linearize
 /-!
 # C10 — concurrent use: deadlock freedom and mutual exclusion of the lock protocol
 
@@ -38,5 +39,47 @@ theorem reentrant_read_lock_is_stuck :
 /-- non-vacuity: AddDocument's shape is disciplined, the old ComputeStats shape is not -/
 example : Disc [] [.acq 0 .W, .acq 1 .W, .tau, .rel 1 .W, .rel 0 .W] := by simp [Disc, List.erase]
 example : ¬ Disc [] [.acq 0 .R, .acq 0 .R, .rel 0 .R, .rel 0 .R] := by simp [Disc]
+
+/-! ## linearizability
+
+Machine (`Lemmas/Linearize.lean`): any number of threads, each issuing any sequence of calls; a call is
+one critical section of the collection lock, in write or read mode, consisting of any number of atomic
+micro-steps on the shared state and a call-local state; threads interleave at micro-step granularity
+under reader/writer exclusion (every schedule of a plain reader/writer lock, hence in particular every
+schedule of Go's writer-preferring `sync.RWMutex`). That the public methods have this shape — lock
+first, unlock deferred, readers never write — is regenerated from the source (`Tie.Lock.one_critical_section`,
+`readers_do_not_write`). -/
+
+/-- **Linearizability**: for every thread count, every program of calls and every interleaving, the final
+    state is that of running the calls atomically, one at a time, in lock-acquisition order; every call
+    returned what it returns in that serial run; each thread's calls keep their program order -/
+theorem linearizable {S L Ret : Type} (σ0 : S) (progs : Nat → List (Lin.Call S L Ret)) (hwf : ∀ i, ∀ c ∈ progs i, c.WF)
+    (k : Lin.Conf S L Ret) (r : Lin.Reach (Lin.initConf σ0 progs) k) (hdone : Lin.Done k) :
+    k.σ = (Lin.replay σ0 k.log).1 ∧ (∀ i, (k.thr i).results = Lin.retsOf σ0 k.log i) ∧
+    (∀ i, Lin.callsOf k.log i = progs i) :=
+  Lin.linearizable σ0 progs hwf k r hdone
+
+/-- at every moment of every execution the results returned so far are those of the serial run, a writer
+    inside its critical section is alone, and outside writers' critical sections the shared state is
+    the serial state -/
+theorem linearizable_at_every_moment {S L Ret : Type} (σ0 : S) (progs : Nat → List (Lin.Call S L Ret))
+    (hwf : ∀ i, ∀ c ∈ progs i, c.WF) (k : Lin.Conf S L Ret) (r : Lin.Reach (Lin.initConf σ0 progs) k) :
+    (∀ i, (k.thr i).results <+: Lin.retsOf σ0 k.log i) ∧ ((∀ i, ¬ Lin.writing k i) → k.σ = (Lin.replay σ0 k.log).1) ∧
+    (∀ i, Lin.writing k i → ∀ j, j ≠ i → (k.thr j).cur = none) :=
+  Lin.linearizable_at_every_moment σ0 progs hwf k r
+
+/-- the serial order extends real time: a call enters it at its lock acquisition (between invocation and
+    response) and the order only ever grows at the end -/
+theorem serial_order_extends_real_time {S L Ret : Type} (k k' : Lin.Conf S L Ret) (r : Lin.Reach k k') :
+    k.log <+: k'.log :=
+  Lin.log_grows k k' r
+
+/-- non-vacuity: a non-atomic read-modify-write as a writer call and an observer as a reader call are well-formed -/
+example : (⟨true, [fun _ s => (s, s), fun l _ => (l, l + 1)], 0, id⟩ : Lin.Call Nat Nat Nat).WF ∧
+    (⟨false, [fun _ s => (s, s)], 0, id⟩ : Lin.Call Nat Nat Nat).WF := by
+  constructor
+  · intro h; cases h
+  · intro _ f hf l s
+    simp at hf; subst hf; rfl
 
 end Syzgy.C10
